@@ -67,7 +67,7 @@ impl C20Oracle {
                         ));
                     }
                     let mut cl = vec![];
-                    if let Err(m) = judge_withdraw(&f, &rec, p, a, &holder, idx, &mut cl) {
+                    if let Err(m) = judge_withdraw(&f, &rec, p, a, &holder, &holder, idx, &mut cl) {
                         return Verdict::Fail(format!("injected withdrawal after step {}: {}", idx, m));
                     }
                     self.injected_ok += 1;
